@@ -296,6 +296,9 @@ func (w *world) apply(op string) (outcome string) {
 	defer func() {
 		if r := recover(); r != nil {
 			outcome = "panic"
+			if os.Getenv("LOCKLEAK_DEBUG") != "" {
+				fmt.Fprintf(os.Stderr, "panic in %q: %v\n", op, r)
+			}
 		}
 	}()
 	f := strings.Fields(op)
@@ -503,6 +506,10 @@ func (w *world) apply(op string) (outcome string) {
 		if l == nil {
 			return "noleaf"
 		}
+		// only on a file that is still referenced (the kernel never passes a released handle)
+		if s := l.VirtualOpenSelf(ctx, virtual.ShareMaskRead, &virtual.OpenExistingOptions{}, maskPlain, &out); s != virtual.StatusOK {
+			return fmt.Sprint("s", int(s))
+		}
 		in := &virtual.Attributes{}
 		if num(2)&1 != 0 {
 			in.SetSizeBytes(uint64(num(2)))
@@ -510,6 +517,7 @@ func (w *world) apply(op string) (outcome string) {
 			in.SetPermissions(virtual.PermissionsRead | virtual.PermissionsExecute)
 		}
 		s := l.VirtualSetAttributes(ctx, in, maskPlain, &out)
+		l.VirtualClose(virtual.ShareMaskRead)
 		return fmt.Sprint("s", int(s))
 	}
 	return "bad-op"
@@ -804,6 +812,19 @@ func main() {
 			res.Notes = append(res.Notes, "replay has no call sequence (static finding); re-run ./check C14 to re-evaluate the obligation")
 			return
 		}
+		if f.History[0] == "pile" {
+			drv, err := hx.StartDriver("lockpile")
+			if err != nil {
+				drv = nil
+			} else {
+				defer drv.Close()
+			}
+			if v := runPileHistory(f.History[1:], drv, res); v.kind != "" {
+				res.Report(hx.Finding{Kind: v.kind, Property: "C14", What: v.what, Name: "LockPile correspondence", History: f.History, Sig: hx.Sig("C14", "pile", v.kind)})
+			}
+			res.History(f.History, true)
+			return
+		}
 		if strings.HasPrefix(f.History[0], "stress ") {
 			var seed uint64
 			var nfs bool
@@ -948,7 +969,10 @@ func main() {
 		}
 	}
 
-	// 4. concurrent workloads under a watchdog
+	// 4. the real LockPile against Model/LockPile.lean
+	runPile(o, res)
+
+	// 5. concurrent workloads under a watchdog
 	rounds := 30
 	if o.Tier == "thorough" {
 		rounds = 150
